@@ -1,5 +1,5 @@
 """C26 test verdicts are independent and the exit status is honest."""
-REG_DRAFT = dict(
+REG = dict(
     engine='E1-enum',
     technique='exhaustive enumeration of test files (every sequence of <=3 tests over 7 test kinds) x every name filter x one- and two-file invocations, run through the real `garden test` and compared with the single-test runs',
     text="Every sequence of 1..3 tests over 7 kinds (pass; assertion failure; exception three frames deep; exception inside nested blocks with locals; test defining locals that shadow a global function and a name another test reads; test calling the global function another test shadows; test reading a variable only another test defines) is written to a file and run with no filter, the empty filter, every substring of every test name (names are chosen so that these are exactly 6 strings selecting every 1- and 2-element subset) and a filter matching nothing (quick: 3-test files only unfiltered and one test at a time); two-file invocations split the same sequences over two files (1+1 in quick; 1+2 and 2+1 in thorough). Oracle, from the statement: exit status != 0 iff a selected test is reported failed; the summary line's total equals the number of tests whose name contains the filter and its passed/failed counts equal the reported verdicts; each test's verdict equals its verdict when run alone with `-n <its name>`.",
